@@ -692,6 +692,252 @@ fn mode_worker(args: &[String]) -> i32 {
 }
 
 // ---------------------------------------------------------------------------------------
+// cold-start sweep: one fresh process per position
+//
+// The preemption sweep of the worker episodes warms the library up before it positions anything. A race that exists
+// only while a lazily initialised table is filled for the first time in the process needs the opposite: a process in
+// which the victim's run IS the first use. For every visit of a cold world one fresh process records the stretch
+// twice — cold, then (same process, now warm) again — and reports the part of the cold stretch that the warm one does
+// not have: the initialisation code. For every instruction address of that part one more fresh process parks the
+// victim there by hardware breakpoint, lets the intruder run, resumes, and judges all builds as usual (goldens are
+// computed after the run, and audited in yet another fresh process).
+// ---------------------------------------------------------------------------------------
+
+const COLD_POSITIONS_PER_VISIT: usize = 300;
+
+fn cold_spec(pair: usize, verif_seed: u64, visit: u64, steps: u32, via: u8) -> Option<RunSpec> {
+    let pairs = cold_pairs();
+    let p = pairs.get(pair)?;
+    let mut rng = Rng::new(derive(verif_seed, &[0x434F4C44, pair as u64]));
+    let seeds = (rng.next_u64() | 1, rng.next_u64() | 1);
+    Some(preempt_run_via(p, seeds, visit, steps, 0, via))
+}
+
+fn mode_cold(args: &[String]) -> i32 {
+    process_setup();
+    if let Err(e) = seam_selftest() {
+        println!("{}", json!({"harness_error": e}));
+        return 2;
+    }
+    grex_sim::exec::COLD.store(true, Ordering::SeqCst);
+    let verif_seed: u64 = arg_value(args, "--verif-seed").and_then(|s| s.parse().ok()).unwrap_or(DEFAULT_SEED);
+    let pair: usize = arg_value(args, "--pair").and_then(|s| s.parse().ok()).unwrap_or(0);
+    let visit: u64 = arg_value(args, "--visit").and_then(|s| s.parse().ok()).unwrap_or(0);
+    if has_flag(args, "--trace") {
+        // visit 0: only count the visits of the victim
+        if visit == 0 {
+            let spec = match cold_spec(pair, verif_seed, 0, 0, 0) {
+                Some(s) => s,
+                None => return 2,
+            };
+            let res = execute_run(&spec);
+            println!("{}", json!({"visits": res.visits.first().copied().unwrap_or(0)}));
+            return 0;
+        }
+        let spec = match cold_spec(pair, verif_seed, visit, TRACE_CAPACITY, 2) {
+            Some(s) => s,
+            None => return 2,
+        };
+        let key = (grex_sim::exec::client_fingerprint(&spec.clients[0]), visit);
+        let _ = execute_run(&spec);
+        let cold: Vec<u32> = grex_sim::exec::TRACES.lock().unwrap().remove(&key).map(|t| t.to_vec()).unwrap_or_default();
+        let _ = execute_run(&spec);
+        let warm: Vec<u32> = grex_sim::exec::TRACES.lock().unwrap().remove(&key).map(|t| t.to_vec()).unwrap_or_default();
+        let mut p = 0usize;
+        while p < cold.len() && p < warm.len() && cold[p] == warm[p] {
+            p += 1;
+        }
+        let mut q = 0usize;
+        while q < cold.len() - p && q < warm.len() - p && cold[cold.len() - 1 - q] == warm[warm.len() - 1 - q] {
+            q += 1;
+        }
+        println!("{}", json!({"cold": cold, "warm_len": warm.len(), "segment": [p, cold.len() - q]}));
+        return 0;
+    }
+    // run mode: the recorded cold stretch arrives on stdin
+    let position: u32 = arg_value(args, "--position").and_then(|s| s.parse().ok()).unwrap_or(1);
+    let mut input = String::new();
+    let _ = std::io::stdin().read_to_string(&mut input);
+    let trace: Vec<u32> = serde_json::from_str::<Value>(&input)
+        .ok()
+        .and_then(|v| v.as_array().map(|a| a.iter().filter_map(|x| x.as_u64().map(|x| x as u32)).collect()))
+        .unwrap_or_default();
+    let spec = match cold_spec(pair, verif_seed, visit, position, 1) {
+        Some(s) => s,
+        None => return 2,
+    };
+    let key = (grex_sim::exec::client_fingerprint(&spec.clients[0]), visit);
+    grex_sim::exec::TRACES.lock().unwrap().insert(key, Arc::new(trace));
+    let mut once = Some(spec);
+    let out = run_episode(|_| once.take(), false, true);
+    let mut js = out.json;
+    js["breakpoints_hit"] = json!(grex_sim::step::BREAKPOINTS_HIT.load(Ordering::SeqCst));
+    println!("{}", js);
+    if js["harness_error"].is_string() {
+        2
+    } else if out.violation.is_some() {
+        1
+    } else {
+        0
+    }
+}
+
+fn run_cold_process(args: &[String], stdin_text: Option<String>, timeout_s: u64) -> Result<Value, String> {
+    let exe = std::env::current_exe().map_err(|e| e.to_string())?;
+    let mut cmd = Command::new(exe);
+    cmd.arg("cold").args(args).env_remove("RUST_BACKTRACE").stdin(Stdio::piped()).stdout(Stdio::piped()).stderr(Stdio::null());
+    let mut child = cmd.spawn().map_err(|e| e.to_string())?;
+    {
+        let mut si = child.stdin.take().unwrap();
+        if let Some(t) = stdin_text {
+            let _ = si.write_all(t.as_bytes());
+        }
+    }
+    let mut so = child.stdout.take().unwrap();
+    let reader = std::thread::spawn(move || {
+        let mut s = String::new();
+        let _ = so.read_to_string(&mut s);
+        s
+    });
+    let start = Instant::now();
+    loop {
+        match child.try_wait() {
+            Ok(Some(_)) => break,
+            Ok(None) => {
+                if start.elapsed() > Duration::from_secs(timeout_s) {
+                    let _ = child.kill();
+                    let _ = child.wait();
+                    return Err(format!("cold process {:?} exceeded {} s", args, timeout_s));
+                }
+                std::thread::sleep(Duration::from_millis(1));
+            }
+            Err(e) => return Err(e.to_string()),
+        }
+    }
+    let out = reader.join().map_err(|_| "reader thread")?;
+    serde_json::from_str(out.trim()).map_err(|e| format!("cold process {:?} output unparsable: {} ({} bytes)", args, e, out.len()))
+}
+
+/// Returns (statistics, first violation, harness errors).
+fn cold_sweep(verif_seed: u64, jobs: usize) -> (Value, Option<Value>, Vec<String>) {
+    let n_pairs = cold_pairs().len();
+    let errors: Arc<Mutex<Vec<String>>> = Arc::new(Mutex::new(vec![]));
+    let violation: Arc<Mutex<Option<Value>>> = Arc::new(Mutex::new(None));
+    let (mut traces_made, mut cold_instr, mut init_instr, mut stretches_with_init) = (0u64, 0u64, 0u64, 0u64);
+    let positions_run = Arc::new(AtomicUsize::new(0));
+    let positions_hit = Arc::new(AtomicUsize::new(0));
+    for pair in 0..n_pairs {
+        let base = vec!["--verif-seed".to_string(), verif_seed.to_string(), "--pair".to_string(), pair.to_string()];
+        let mut a = base.clone();
+        a.extend(["--trace".to_string(), "--visit".to_string(), "0".to_string()]);
+        let visits = match run_cold_process(&a, None, 120) {
+            Ok(v) => v["visits"].as_u64().unwrap_or(0),
+            Err(e) => {
+                errors.lock().unwrap().push(e);
+                continue;
+            }
+        };
+        // traces, in parallel
+        let traces: Arc<Mutex<BTreeMap<u64, (Vec<u32>, usize, usize)>>> = Arc::new(Mutex::new(BTreeMap::new()));
+        let next = Arc::new(AtomicUsize::new(1));
+        let mut hs = vec![];
+        for _ in 0..jobs {
+            let (traces, next, errors, base) = (traces.clone(), next.clone(), errors.clone(), base.clone());
+            hs.push(std::thread::spawn(move || loop {
+                let v = next.fetch_add(1, Ordering::SeqCst) as u64;
+                if v > visits {
+                    break;
+                }
+                let mut a = base.clone();
+                a.extend(["--trace".to_string(), "--visit".to_string(), v.to_string()]);
+                match run_cold_process(&a, None, 300) {
+                    Ok(j) => {
+                        let cold: Vec<u32> = j["cold"].as_array().map(|x| x.iter().filter_map(|y| y.as_u64().map(|y| y as u32)).collect()).unwrap_or_default();
+                        let s0 = j["segment"][0].as_u64().unwrap_or(0) as usize;
+                        let s1 = j["segment"][1].as_u64().unwrap_or(0) as usize;
+                        traces.lock().unwrap().insert(v, (cold, s0, s1));
+                    }
+                    Err(e) => errors.lock().unwrap().push(e),
+                }
+            }));
+        }
+        for h in hs {
+            let _ = h.join();
+        }
+        let traces = traces.lock().unwrap().clone();
+        // positions: every address of the cold-only part at its first occurrence there
+        let mut work: Vec<(u64, u32, Arc<String>)> = vec![];
+        for (v, (cold, s0, s1)) in &traces {
+            traces_made += 1;
+            cold_instr += cold.len() as u64;
+            if s1 > s0 {
+                stretches_with_init += 1;
+                init_instr += (s1 - s0) as u64;
+                let mut seen = BTreeSet::new();
+                let mut pos: Vec<u32> = (*s0..*s1).filter(|i| seen.insert(cold[*i])).map(|i| i as u32 + 1).collect();
+                if pos.len() > COLD_POSITIONS_PER_VISIT {
+                    let n = pos.len();
+                    pos = (0..COLD_POSITIONS_PER_VISIT).map(|j| pos[j * n / COLD_POSITIONS_PER_VISIT]).collect();
+                }
+                let text = Arc::new(serde_json::to_string(cold).unwrap());
+                for k in pos {
+                    work.push((*v, k, text.clone()));
+                }
+            }
+        }
+        let work = Arc::new(work);
+        let next = Arc::new(AtomicUsize::new(0));
+        let mut hs = vec![];
+        for _ in 0..jobs {
+            let (work, next, errors, base, violation, positions_run, positions_hit) =
+                (work.clone(), next.clone(), errors.clone(), base.clone(), violation.clone(), positions_run.clone(), positions_hit.clone());
+            hs.push(std::thread::spawn(move || loop {
+                let i = next.fetch_add(1, Ordering::SeqCst);
+                if i >= work.len() || violation.lock().unwrap().is_some() {
+                    break;
+                }
+                let (v, k, text) = &work[i];
+                let mut a = base.clone();
+                a.extend(["--visit".to_string(), v.to_string(), "--position".to_string(), k.to_string()]);
+                match run_cold_process(&a, Some(text.to_string()), 300) {
+                    Ok(j) => {
+                        positions_run.fetch_add(1, Ordering::SeqCst);
+                        positions_hit.fetch_add(j["breakpoints_hit"].as_u64().unwrap_or(0) as usize, Ordering::SeqCst);
+                        if j["harness_error"].is_string() {
+                            errors.lock().unwrap().push(format!("cold run: {}", j["harness_error"]));
+                        } else if !j["violation"].is_null() {
+                            let mut g = violation.lock().unwrap();
+                            if g.is_none() {
+                                *g = Some(json!({"pair": pair, "visit": v, "position": k, "violation": j["violation"], "run": j["executed_runs"]}));
+                            }
+                        }
+                    }
+                    Err(e) => errors.lock().unwrap().push(e),
+                }
+            }));
+        }
+        for h in hs {
+            let _ = h.join();
+        }
+        if violation.lock().unwrap().is_some() {
+            break;
+        }
+    }
+    let stats = json!({
+        "worlds": n_pairs,
+        "stretches_traced_cold_and_warm": traces_made,
+        "instructions_in_the_cold_stretches": cold_instr,
+        "stretches_with_first_use_code": stretches_with_init,
+        "instructions_of_first_use_code": init_instr,
+        "positions_each_in_a_fresh_process": positions_run.load(Ordering::SeqCst),
+        "of_which_the_breakpoint_was_hit": positions_hit.load(Ordering::SeqCst),
+    });
+    let v = violation.lock().unwrap().clone();
+    let e = errors.lock().unwrap().clone();
+    (stats, v, e)
+}
+
+// ---------------------------------------------------------------------------------------
 // replay
 // ---------------------------------------------------------------------------------------
 
@@ -765,6 +1011,35 @@ fn mode_replay(args: &[String]) -> i32 {
                 }
                 println!("REPLAY-OK no violation reproduced");
                 return 0;
+            }
+            if v["kind"] == "cold" {
+                let vs = v["verif_seed"].as_str().unwrap_or("0").to_string();
+                let base = vec!["--verif-seed".to_string(), vs, "--pair".to_string(), v["pair"].as_u64().unwrap_or(0).to_string(), "--visit".to_string(), v["visit"].as_u64().unwrap_or(1).to_string()];
+                let mut a = base.clone();
+                a.push("--trace".to_string());
+                let t = match run_cold_process(&a, None, 300) {
+                    Ok(t) => t,
+                    Err(e) => {
+                        println!("HARNESS-ERROR {}", e);
+                        return 2;
+                    }
+                };
+                let mut a = base.clone();
+                a.extend(["--position".to_string(), v["position"].as_u64().unwrap_or(1).to_string()]);
+                return match run_cold_process(&a, Some(t["cold"].to_string()), 300) {
+                    Ok(j) if !j["violation"].is_null() => {
+                        println!("REPLAY-VIOLATION class={} {}", j["violation"]["class"].as_str().unwrap_or("?"), j["violation"]);
+                        1
+                    }
+                    Ok(_) => {
+                        println!("REPLAY-OK no violation reproduced");
+                        0
+                    }
+                    Err(e) => {
+                        println!("HARNESS-ERROR {}", e);
+                        2
+                    }
+                };
             }
             if v["kind"] == "hashsweep" {
                 let key = match v["key"].as_str().and_then(Key::decode) {
@@ -1626,6 +1901,35 @@ fn mode_run(args: &[String]) -> i32 {
     } else {
         hash_sweep(&tier, verif_seed, jobs)
     };
+    // ---- cold-start sweep ---------------------------------------------------------------------------------
+    let (cold_stats, cold_violation, cold_errors) = if has_flag(args, "--no-preempt") || !cfg!(target_arch = "x86_64") {
+        (Value::Null, None, vec![])
+    } else {
+        cold_sweep(verif_seed, jobs)
+    };
+    if !cold_errors.is_empty() {
+        for e in &cold_errors {
+            println!("HARNESS-ERROR {}", e);
+        }
+        return 2;
+    }
+    let mut cold_line: Option<String> = None;
+    if let Some(v) = &cold_violation {
+        std::fs::create_dir_all(&replay_dir).ok();
+        let path = format!("{}/C10-cold-seed{}.json", replay_dir, verif_seed);
+        let file = json!({
+            "property": "C10", "engine": "simhist", "kind": "cold", "verif_seed": verif_seed.to_string(),
+            "pair": v["pair"], "visit": v["visit"], "position": v["position"], "run": v["run"], "violation": v["violation"],
+            "explanation": "fresh process, no warm-up: client 0 is parked by a hardware breakpoint at this position of the stretch after this visit (recorded in another fresh process), client 1 runs its whole history, client 0 resumes",
+            "how_to_replay": "/verif/check --replay <this file>",
+        });
+        std::fs::write(&path, serde_json::to_string_pretty(&file).unwrap()).ok();
+        println!("simhist: cold-start sweep violation: {}", v["violation"]);
+        cold_line = Some(format!(
+            "VIOLATION-JSON {}",
+            json!({"property": "C10", "replay": path, "class": format!("cold_start:{}", v["violation"]["class"].as_str().unwrap_or("?")), "signature": format!("cold_start|{}", v["violation"]["key"].as_str().unwrap_or(""))})
+        ));
+    }
     let mut rerun_line: Option<String> = None;
     if let Some((ep, la, lb)) = &rerun_violation {
         std::fs::create_dir_all(&replay_dir).ok();
@@ -1787,6 +2091,7 @@ fn mode_run(args: &[String]) -> i32 {
                 "instructions_counted_inside_the_executable": agg.get("single_steps_counted"),
                 "stepping_given_up_in_a_long_excursion_outside_the_executable": agg.get("single_step_expired"),
             },
+            "cold_start_sweep": cold_stats,
             "distinct_schedules_sum_over_episodes": agg.get("schedule_fps"),
             "hash_key_streams": agg.get("hash_streams"),
             "getrandom_calls_served": agg.get("getrandom_calls"),
@@ -1844,6 +2149,10 @@ fn mode_run(args: &[String]) -> i32 {
         exit = 1;
     }
     if let Some(l) = rerun_line {
+        println!("{}", l);
+        exit = 1;
+    }
+    if let Some(l) = cold_line {
         println!("{}", l);
         exit = 1;
     }
@@ -1911,6 +2220,7 @@ fn main() {
     let args: Vec<String> = std::env::args().skip(1).collect();
     let code = match args.first().map(|s| s.as_str()) {
         Some("worker") => mode_worker(&args),
+        Some("cold") => mode_cold(&args),
         Some("golden-one") => mode_golden_one(&args),
         Some("replay") => mode_replay(&args),
         Some("minimise") => mode_minimise(&args),
